@@ -266,6 +266,13 @@ pub fn generate(rng: &mut Rng, idx: u64) -> World {
     for (n, t) in probes {
         g.q(&n, &t);
     }
+    // second pass: repeat a few earlier queries on the now warm (possibly contaminated) caches
+    let n_first = g.w.queries.len();
+    for _ in 0..g.rng.urange(1, 3) {
+        let i = g.rng.usize_below(n_first);
+        let e = g.w.queries[i].clone();
+        g.w.queries.push(e);
+    }
     // one more genuine query at the end
     let z = g.rng.pick(&all_zones).clone();
     g.q(&format!("www.{z}"), "A");
